@@ -21,3 +21,4 @@ CONSTANTS
 INVARIANTS TypeOK ReplicasSameConfig OriginsOnlyLost ExpirationFollowsConfig GlineIsConfig
 PROPERTIES ConfigRevisionStep RejectedChangesNothing
 CHECK_DEADLOCK FALSE
+POSTCONDITION ExportTable
